@@ -97,7 +97,7 @@ Section StoreProofs.
   Lemma store_step_ok max_records st held far : far_ok held far ->
     far_ok (fst (fst (store_step dk max_records (held, far) st))) (snd (fst (store_step dk max_records (held, far) st))).
   Proof.
-    intros Hok. destruct st as [k|k|]; cbn [store_step].
+    intros Hok. destruct st as [k|k|k|]; cbn [store_step]; [|exact Hok| |].
     - unfold store_prune. cbn [fst snd].
       destruct (N.of_nat (List.length held) <? max_records).
       + cbn [fst]. apply store_mark_ok, Hok.
@@ -144,6 +144,19 @@ Section StoreProofs.
     - exists fk. split; [exact Hin|]. split; [exact Hmax|]. split; [exact Hge|reflexivity].
   Qed.
 
+  (* the equality case: a record at exactly the farthest record's distance -- in particular a re-put of the
+     farthest record itself, or of any held record -- is never refused *)
+  Lemma store_admits_not_farther max_records k held far : far_ok held far ->
+    (exists k', In k' held /\ dk k <= dk k') ->
+    store_prune dk max_records k (held, far) <> None.
+  Proof.
+    intros Hok (k' & Hk' & Hle). unfold store_prune. cbn [fst snd].
+    destruct (N.of_nat (List.length held) <? max_records); [discriminate|].
+    destruct far as [[fk fd]|]; cbn [far_ok] in Hok; [|discriminate].
+    destruct Hok as (_ & -> & Hmax). specialize (Hmax k' Hk').
+    destruct (N.ltb_spec (dk fk) (dk k)); [lia|discriminate].
+  Qed.
+
   Lemma store_below_capacity_admits max_records k s :
     N.of_nat (List.length (fst s)) < max_records -> store_prune dk max_records k s = Some s.
   Proof. intros Hlt. unfold store_prune. destruct (N.ltb_spec (N.of_nat (List.length (fst s))) max_records); [reflexivity|lia]. Qed.
@@ -163,7 +176,7 @@ Section StoreProofs.
 End StoreProofs.
 
 Lemma store_step_ext dk dk' max_records st held far :
-  (forall k, In k (match st with SPut k | SRemove k => [k] | SRestart => [] end ++ held) -> dk k = dk' k) ->
+  (forall k, In k (match st with SPut k | SPutSame k | SRemove k => [k] | SRestart => [] end ++ held) -> dk k = dk' k) ->
   store_step dk max_records (held, far) st = store_step dk' max_records (held, far) st.
 Proof.
   intros Hext.
@@ -173,7 +186,7 @@ Proof.
   { intros fk [h f] Hs. unfold store_remove. cbn [fst snd] in *. f_equal.
     destruct f as [[fk' fd]|]; [|reflexivity]. destruct (bytes_eqb fk' fk); [|reflexivity].
     apply Hh. intros x Hx. apply remove_key_in in Hx. apply Hs. tauto. }
-  destruct st as [k|k|]; cbn [store_step].
+  destruct st as [k|k|k|]; cbn [store_step]; [|reflexivity| |].
   - assert (Ek : dk k = dk' k) by (apply Hext; left; reflexivity).
     unfold store_prune. cbn [fst snd].
     destruct (N.of_nat (List.length held) <? max_records).
@@ -219,6 +232,19 @@ Example store_restart_example :
    code = 0 /\ same_keys (fst s') [k 0%nat; k 1%nat; k 3%nat; k 5%nat] = true /\ snd s' = Some (k 5%nat, dk (k 5%nat))) /\
   (* a record beyond the farthest is refused *)
   snd (store_step dk 4 s (SPut (k 6%nat))) = 0 /\ snd (store_step dk 4 (fst (store_step dk 4 s (SPut (k 3%nat)))) (SPut (k 6%nat))) = 1.
+Proof. vm_compute. repeat split; reflexivity. Qed.
+
+(* the equality case at capacity: re-putting the farthest record itself is admitted (it takes its own place);
+   only a strictly farther record is refused *)
+Example store_reput_farthest_example :
+  let dk := key_dist sha256 ex_self in
+  let order := sort_on dk (map ex_key [1; 2; 3; 4; 5; 6; 7; 8]) in
+  let k := fun i => nth i order [] in
+  let s := store_run dk 3 [SPut (k 0%nat); SPut (k 5%nat); SPut (k 2%nat)] in
+  snd s = Some (k 5%nat, dk (k 5%nat)) /\
+  (let '(s', code) := store_step dk 3 s (SPut (k 5%nat)) in
+   code = 0 /\ same_keys (fst s') [k 0%nat; k 2%nat; k 5%nat] = true /\ snd s' = Some (k 5%nat, dk (k 5%nat))) /\
+  snd (store_step dk 3 s (SPut (k 6%nat))) = 1.
 Proof. vm_compute. repeat split; reflexivity. Qed.
 
 (* ================================================================== get_closest_k_value_local_peers *)
